@@ -365,9 +365,9 @@ fn c17_file_list_order_and_skipping() {
 }
 
 fn file_ranges_two_files(pl: u64) {
-    // lengths structurally below 2^20
-    let l0: u64 = (kani::any::<u32>() & 0xF_FFFF) as u64;
-    let l1: u64 = (kani::any::<u32>() & 0xF_FFFF) as u64;
+    // lengths structurally below 2^31
+    let l0: u64 = (kani::any::<u32>() & 0x7FFF_FFFF) as u64;
+    let l1: u64 = (kani::any::<u32>() & 0x7FFF_FFFF) as u64;
     let files = vec![
         File { length: l0, path: String::from("a") },
         File { length: l1, path: String::from("b") },
@@ -387,7 +387,7 @@ fn file_ranges_two_files(pl: u64) {
 
 // @prop C03
 // @fn Metainfo::file_piece_ranges, Metainfo::piece_pos
-// @bound two files with every pair of lengths in 0..2^20 (zero-length files, files inside one piece, files ending on a piece boundary included), piece lengths 4 and 16384
+// @bound two files with every pair of lengths in 0..2^31 (zero-length files, files inside one piece, files ending on a piece boundary included), piece lengths 4 and 16384
 // @outside more than two files; symbolic piece lengths (DESIGN 3.12); the extractor that consumes the ranges (3.10)
 // @desc each file's start/end position is (offset / piece_length, offset % piece_length) of its running byte offset in the concatenated content: the second file starts exactly where the first ends
 #[kani::proof]
@@ -395,6 +395,20 @@ fn file_ranges_two_files(pl: u64) {
 fn c03_file_ranges_two_files_running_offset() {
     file_ranges_two_files(4);
     file_ranges_two_files(16384);
+    kani::cover!(true, "reached");
+}
+
+// @prop C03
+// @tier thorough
+// @fn Metainfo::file_piece_ranges, Metainfo::piece_pos
+// @bound two files with every pair of lengths in 0..2^31, piece lengths 3 and 1000003 (not powers of two: division by these constants is what makes the query slow, about 5 min)
+// @outside as c03_file_ranges_two_files_running_offset
+// @desc as c03_file_ranges_two_files_running_offset for piece lengths that are not powers of two
+#[kani::proof]
+#[kani::unwind(4)]
+fn c03_file_ranges_two_files_odd_piece_lengths() {
+    file_ranges_two_files(3);
+    file_ranges_two_files(1000003);
     kani::cover!(true, "reached");
 }
 
